@@ -234,7 +234,8 @@ def stmt_class(s):
     if s[0] == "aug" and s[1][0] != "attr":
         return "augmented-assignment-to-another-target"
     if s[0] == "aug" and s[1][0] == "attr":
-        return "attribute-read-again-in-its-own-augmented-assignment"
+        # the recorded finding is about `o.x OP= <something that reads o.x again>`; a plain `o.x OP= v` must not leak
+        return "attribute-read-again-in-its-own-augmented-assignment" if "o.x" in render_stmt(("expr", s[3])) else "plain-augmented-assignment"
     if "<=" in line or ">=" in line:
         return "comparison-le-ge"
     return "other"
@@ -406,6 +407,9 @@ def gen_json(rng, depth):
                            rng.random()])
     if r < 0.75:
         return [gen_json(rng, depth - 1) for _ in range(rng.randint(0, 4))]
+    if rng.random() < 0.12:
+        # a dict that looks like a serialised event itself
+        return {"signal_name": rng.choice(["B", "INNER_%d" % rng.randint(0, 99), 7, None]), "payload": gen_json(rng, depth - 1)}
     return {rng.choice(["k", "", "key é", "a\"b", "0"]) + str(i): gen_json(rng, depth - 1) for i in range(rng.randint(0, 3))}
 
 
